@@ -87,9 +87,9 @@ AcceptSql(i, ok) ==
     /\ bcast' = Append(bcast, i)
     /\ UNCHANGED wq
 
-AcceptLmdb(i, ok) ==
+AcceptLmdb(i, ok) ==         \* an event that is queued but not yet stored may be accepted (and announced) again
     /\ Backend = "lmdb"
-    /\ Admissible(i) /\ i \notin store \cup Pending
+    /\ Admissible(i) /\ i \notin store
     /\ ok = TRUE
     /\ wq' = IF IsEph(Ev(i)) THEN wq ELSE Append(wq, <<"add", i>>)
     /\ bcast' = Append(bcast, i)
@@ -172,7 +172,7 @@ A_C06_RefusedLeavesNoTrace ==
 A_C06_AdmissibleNotRefused ==
     \A i \in Ids : (Submitted(i) /\ Admissible(i) /\ i \notin store \cup Pending) => last'.ok = TRUE
 A_C06_DuplicateChangesNothing ==
-    \A i \in Ids : (Submitted(i) /\ i \in store \cup Pending) => UNCHANGED <<store, wq, bcast>>
+    \A i \in Ids : (Submitted(i) /\ i \in store) => UNCHANGED <<store, wq, bcast>>
 \* OK=true => afterwards retrievable, or ephemeral (and broadcast), or superseded by a not-older version
 A_C06_AckedIsRetrievable == \A i \in Ids : Applied(i) => Explained(store', i)
 A_C06_AckedIsQueuedOrStored ==
@@ -184,7 +184,7 @@ A_C06_BroadcastOncePerAccept ==
     /\ Len(bcast') = Len(bcast) + 1 =>
           /\ last'.act = "Submit" /\ last'.ok = TRUE
           /\ bcast' = Append(bcast, last'.id)
-          /\ last'.id \notin store \cup Pending
+          /\ last'.id \notin store
 
 \* C07: every step changes the durable store by one complete application or not at all
 A_C07_Atomic ==
@@ -226,19 +226,30 @@ C08_OnlyAuthorDeletes       == [][A_C08_OnlyAuthorDeletes]_vars
 C09_Replaceable             == [][A_C09_Replaceable]_vars
 C17_GcExact                 == [][A_C17_GcExact]_vars
 
-\* the names of the action-property bodies violated by the step (state, state')
+\* the action-property bodies violated by the step (state, state'), each with the ids it is about
+\* (for diagnostics and for telling a recorded known finding from a new violation)
+SubjectOfStep == IF last'.act \in {"Submit", "Writer", "Delete"} THEN {last'.id} ELSE {}
+GcOffenders == IF last'.act = "Gc"
+               THEN LET want == GcPost(store, last'.T)
+                        got == IF Backend = "sql" THEN store'
+                               ELSE store \ {wq'[k][2] : k \in {m \in DOMAIN wq' : m > Len(wq) /\ wq'[m][1] = "del"}}
+                    IN (want \ got) \cup (got \ want)
+               ELSE {}
+ReplOffenders == UNION {(IF Applied(i) /\ i \notin store
+                         THEN {x \in store \ store' : ~(x \in MayRemove(store, i))} \cup (MustRemove(store, i) \cap store')
+                         ELSE {}) : i \in Ids}
 StepVerdict ==
-    (IF A_C06_RefusedLeavesNoTrace THEN {} ELSE {"C06_RefusedLeavesNoTrace"})
-    \cup (IF A_C06_AdmissibleNotRefused THEN {} ELSE {"C06_AdmissibleNotRefused"})
-    \cup (IF A_C06_DuplicateChangesNothing THEN {} ELSE {"C06_DuplicateChangesNothing"})
-    \cup (IF A_C06_AckedIsRetrievable THEN {} ELSE {"C06_AckedIsRetrievable"})
-    \cup (IF A_C06_AckedIsQueuedOrStored THEN {} ELSE {"C06_AckedIsQueuedOrStored"})
-    \cup (IF A_C06_BroadcastOncePerAccept THEN {} ELSE {"C06_BroadcastOncePerAccept"})
-    \cup (IF A_C07_Atomic THEN {} ELSE {"C07_Atomic"})
-    \cup (IF A_C08_OnlyAuthorDeletes THEN {} ELSE {"C08_OnlyAuthorDeletes"})
-    \cup (IF A_C09_Replaceable THEN {} ELSE {"C09_Replaceable"})
-    \cup (IF A_C17_GcExact THEN {} ELSE {"C17_GcExact"})
-    \cup (IF OnlyAuthentic(store', wq', bcast') THEN {} ELSE {"C03_OnlyAuthentic"})
-    \cup (IF FailClosed(store', wq', bcast') THEN {} ELSE {"C16_PolicyFailClosed"})
+    (IF A_C06_RefusedLeavesNoTrace THEN {} ELSE {<<"C06_RefusedLeavesNoTrace", SubjectOfStep>>})
+    \cup (IF A_C06_AdmissibleNotRefused THEN {} ELSE {<<"C06_AdmissibleNotRefused", SubjectOfStep>>})
+    \cup (IF A_C06_DuplicateChangesNothing THEN {} ELSE {<<"C06_DuplicateChangesNothing", SubjectOfStep>>})
+    \cup (IF A_C06_AckedIsRetrievable THEN {} ELSE {<<"C06_AckedIsRetrievable", SubjectOfStep>>})
+    \cup (IF A_C06_AckedIsQueuedOrStored THEN {} ELSE {<<"C06_AckedIsQueuedOrStored", SubjectOfStep>>})
+    \cup (IF A_C06_BroadcastOncePerAccept THEN {} ELSE {<<"C06_BroadcastOncePerAccept", SubjectOfStep>>})
+    \cup (IF A_C07_Atomic THEN {} ELSE {<<"C07_Atomic", SubjectOfStep>>})
+    \cup (IF A_C08_OnlyAuthorDeletes THEN {} ELSE {<<"C08_OnlyAuthorDeletes", ReplOffenders>>})
+    \cup (IF A_C09_Replaceable THEN {} ELSE {<<"C09_Replaceable", ReplOffenders>>})
+    \cup (IF A_C17_GcExact THEN {} ELSE {<<"C17_GcExact", GcOffenders>>})
+    \cup (IF OnlyAuthentic(store', wq', bcast') THEN {} ELSE {<<"C03_OnlyAuthentic", SubjectOfStep>>})
+    \cup (IF FailClosed(store', wq', bcast') THEN {} ELSE {<<"C16_PolicyFailClosed", SubjectOfStep>>})
 
 =============================================================================
